@@ -1,3 +1,4 @@
 import JobShopProofs.Properties.C19
 import JobShopProofs.GenRefusal
+import JobShopProofs.GenPasses
 /-! everything proved for C19 (one module for the per-run audit) -/
